@@ -4,7 +4,7 @@ import AkVerif.Gen.C15
 /-!
 Driver of C15. Every line carries the whole scenario:
 
-  sql    <scenario>                    → ok <n> <text>  (n placeholder marks) | unclean | err X
+  sql    <scenario>                    → ok <n> <text>  (n placeholder marks; `-` when the caller's own texts contain the mark) | err X
   params <scenario>                    → ok <value>*          | err X
   ids    <scenario> <method> <table>   → ok <id>* | ok none   | err X
 
@@ -216,9 +216,10 @@ def handle (line : String) : String :=
   | "sql" :: ts =>
     match pScenario ts with
     | some (sc, []) =>
-      if !clean sc.pct sc.st sc.call then "unclean" else
       match prepare sc.pct sc.st sc.call with
-      | .ok p => "ok " ++ toString p.params.length ++ " " ++ showCps p.text   -- C15.placeholders: marks in the text
+      | .ok p =>
+        -- C15.placeholders: the number of marks in the text, when the caller's own texts carry none (`clean`)
+        "ok " ++ (if clean sc.pct sc.st sc.call then toString p.params.length else "-") ++ " " ++ showCps p.text
       | .error e => showFail e
     | _ => "bad-op"
   | "params" :: ts =>
